@@ -690,10 +690,13 @@ package transaction
 // Commit stops the heart-beat manager of its committer on every way out once the committer exists - also when it ends
 // before the two-phase commit starts (key collection failed, nothing to commit): no heart-beat after the transaction ended.
 //@ func (*KVTxn) Commit
-//@   prop C04
+//@   prop C04 C06
 //@   may-panic
 //@   opaque-callee initKeysAndMutations execute asyncPessimisticRollback onCommitted Lock UnLock TxnLatches newTwoPhaseCommitter SetDiskFullOpt SetTxnSource getDetail GetKeys Len IsStale SetCommitTS StartRegion End SpanFromContext WithRPCInterceptor close$1 CancelAggressiveLocking isInternal
 //@   at return assert stopped: defined(committer) && committer != nil && committer == txn.committer ==> committer.ttlManager.state != stateRunning
+// when collecting the mutations fails, the locks of a pessimistic transaction are rolled back from the buffer's own record
+// of locked keys (collectLockedKeys) - not from the possibly incomplete mutation list (finding F21, fixed)
+//@   at call(asyncPessimisticRollback) assert alllocked: arg_keys == lockedKeys && err != nil
 
 // ---- C04: the minimum commit timestamp only grows; which transactions may use the protocols that let the prewrite decide ----
 // tryUpdate never lowers the value and ignores writers below the required access level (after the committer has taken the
